@@ -9,6 +9,8 @@ Property theorems, split over sub-modules (all in `namespace Retro.Props.C17`):
   Lipschitz – each component of `eval` is 3·n·M-Lipschitz on [0,1], across joins
   Rays – `from_rays`: accepted iff ≥ 2 rays, segments p, p+v, q−w, q, C¹ at the knots
   Continuity – over ℝ: every component of `eval` is a continuous function of t
+  Dyadic – IEEE binary32 bit level: the bisection parameters of `approximate` (`a.lerp(&b, 0.5)` in f32) are
+           exact, strictly increasing and distinct down to depth 24 (len < 2^15); sharp at depth 25
 -/
 import Retro.Props.C17.Bezier
 import Retro.Props.C17.Deriv
@@ -18,3 +20,4 @@ import Retro.Props.C17.Approx
 import Retro.Props.C17.Lipschitz
 import Retro.Props.C17.Continuity
 import Retro.Props.C17.Rays
+import Retro.Props.C17.Dyadic
